@@ -55,7 +55,7 @@ def nontrivial(h):
     return any(p["blocks"] for p in h)
 
 
-def sig(scen, kind, detail):
+def sig(scen, kind, detail, rec=None):
     return {"family": "tcp-ack", "kind": kind}
 
 
